@@ -28,6 +28,9 @@ pub struct Case {
     /// context labels (label, masks) if the run uses -e; `ctx_k_delta` shifts the k the archive is built for
     pub ctx: Option<Vec<(String, Vec<Mask>)>>,
     pub ctx_k_delta: i32,
+    /// `-o` names the same file as `-e` (the context archive is updated in place)
+    #[serde(default)]
+    pub same_path: bool,
 }
 
 pub const LAYOUTS: usize = 7;
@@ -126,8 +129,9 @@ pub fn check(b: &Bound, c: &Case) -> Result<Option<String>, String> {
     std::fs::write(&mpath, &mtext).map_err(|e| e.to_string())?;
     let fpath = dir.path().join("formulae.txt");
     std::fs::write(&fpath, formula_file(&c.formulas, c.layout)).map_err(|e| e.to_string())?;
-    let opath = dir.path().join("out").join("results.zip");
     let epath = dir.path().join("context.zip");
+    let in_place = c.same_path && c.with_out && c.ctx.is_some();
+    let opath = if in_place { epath.clone() } else { dir.path().join("out").join("results.zip") };
     // the k the tool derives: maximal quantifier nesting depth over the formulae (reference parser)
     let ext = c.ctx.is_some();
     let mut k = 0usize;
@@ -157,7 +161,7 @@ pub fn check(b: &Bound, c: &Case) -> Result<Option<String>, String> {
         ctx_sets = ctx.iter().map(|(l, m)| (l.clone(), mk(&g, l, m))).collect();
     }
     // odd layouts: the output path already holds a (much longer) result archive of an earlier run on another model
-    if c.with_out && c.layout % 2 == 1 {
+    if c.with_out && c.layout % 2 == 1 && !in_place {
         let other = BooleanNetwork::try_from("zz_old -| zz_old\n$zz_old: !zz_old\n").map_err(|e| e.to_string())?;
         let go = get_extended_symbolic_graph(&other, 1)?;
         let old: HashMap<String, GraphColoredVertices> = (0..200).map(|i| (format!("formula-{i}"), if i % 2 == 0 { go.mk_unit_colored_vertices() } else { go.mk_empty_colored_vertices() })).collect();
@@ -547,7 +551,7 @@ pub fn run(tier: &str) -> Result<Report, String> {
         let v0 = b.spec.vars[0].clone();
         let l: Vec<String> = vec!["%raw%".into(), format!("%rawa% | {v0}"), "EF %rawa%".into(), "~ %rawa%".into(), "%p% & %rawa%".into(), "!{x} in %rawa%: AX {x}".into()];
         for (pi, print) in ["summary", "no-print"].iter().enumerate() {
-            cases.push((b.clone(), Case { fmt: "aeon".into(), layout: pi, print: print.to_string(), with_out: true, formulas: l.clone(), ctx: Some(labels.clone()), ctx_k_delta: 0 }));
+            cases.push((b.clone(), Case { fmt: "aeon".into(), layout: pi, print: print.to_string(), with_out: true, formulas: l.clone(), ctx: Some(labels.clone()), ctx_k_delta: 0, same_path: false }));
         }
     }
     // networks with unusual variable names (like spare variables, like HCTL variables, prefixes, keywords)
@@ -559,7 +563,7 @@ pub fn run(tier: &str) -> Result<Report, String> {
                 continue;
             }
             for (pi, print) in ["summary", "exhaustive"].iter().enumerate() {
-                cases.push((b.clone(), Case { fmt: fmt.into(), layout: pi, print: print.to_string(), with_out: true, formulas: l.clone(), ctx: None, ctx_k_delta: 0 }));
+                cases.push((b.clone(), Case { fmt: fmt.into(), layout: pi, print: print.to_string(), with_out: true, formulas: l.clone(), ctx: None, ctx_k_delta: 0, same_path: false }));
             }
         }
     }
@@ -574,10 +578,14 @@ pub fn run(tier: &str) -> Result<Report, String> {
                 for print in prints {
                     for with_out in [false, true] {
                         for (li, l) in plain_lists.iter().enumerate() {
-                            cases.push((b.clone(), Case { fmt: fmt.into(), layout, print: print.into(), with_out, formulas: l.clone(), ctx: None, ctx_k_delta: 0 }));
+                            cases.push((b.clone(), Case { fmt: fmt.into(), layout, print: print.into(), with_out, formulas: l.clone(), ctx: None, ctx_k_delta: 0, same_path: false }));
                         }
                         for (li, l) in ext_lists.iter().enumerate() {
-                            cases.push((b.clone(), Case { fmt: fmt.into(), layout, print: print.into(), with_out, formulas: l.clone(), ctx: Some(ctx_labels.clone()), ctx_k_delta: 0 }));
+                            cases.push((b.clone(), Case { fmt: fmt.into(), layout, print: print.into(), with_out, formulas: l.clone(), ctx: Some(ctx_labels.clone()), ctx_k_delta: 0, same_path: false }));
+                            if with_out {
+                                // the context archive is updated in place: -o names the same file as -e
+                                cases.push((b.clone(), Case { fmt: fmt.into(), layout, print: print.into(), with_out, formulas: l.clone(), ctx: Some(ctx_labels.clone()), ctx_k_delta: 0, same_path: true }));
+                            }
                         }
                     }
                 }
@@ -585,12 +593,12 @@ pub fn run(tier: &str) -> Result<Report, String> {
             if fmt == "aeon" {
                 for (li, l) in operator_lists.iter().enumerate() {
                     let print = if li % 2 == 0 { "summary" } else { "exhaustive" };
-                    cases.push((b.clone(), Case { fmt: fmt.into(), layout: li % LAYOUTS, print: print.into(), with_out: li % 3 == 0, formulas: l.clone(), ctx: None, ctx_k_delta: 0 }));
+                    cases.push((b.clone(), Case { fmt: fmt.into(), layout: li % LAYOUTS, print: print.into(), with_out: li % 3 == 0, formulas: l.clone(), ctx: None, ctx_k_delta: 0, same_path: false }));
                 }
             }
             // context archives written for a different number of spare variable sets
             for delta in [-1, 1, 2] {
-                cases.push((b.clone(), Case { fmt: fmt.into(), layout: 0, print: "summary".into(), with_out: false, formulas: ext_lists[0].clone(), ctx: Some(ctx_labels.clone()), ctx_k_delta: delta }));
+                cases.push((b.clone(), Case { fmt: fmt.into(), layout: 0, print: "summary".into(), with_out: false, formulas: ext_lists[0].clone(), ctx: Some(ctx_labels.clone()), ctx_k_delta: delta, same_path: false }));
             }
         }
     }
